@@ -1,3 +1,5 @@
+//go:build verif
+
 // Package sessrig is a session rig for the prepared-statement and multi-statement checks
 // (C14–C17): a real server.Manager / server.Namespace / server.SessionExecutor whose only
 // backend is a fake implementing the exported backend.ConnectionPool / PooledConnect
@@ -371,4 +373,15 @@ func (s *Session) PacketsWritten() int {
 	s.sink.mu.Lock()
 	defer s.sink.mu.Unlock()
 	return s.sink.packets
+}
+
+// UserVarSet reports whether the session holds a value for the user variable (name with
+// the leading '@', lower case).
+func (s *Session) UserVarSet(name string) bool {
+	return server.VerifSessionVariable(s.SE, name) != nil
+}
+
+// SessionVar returns the session's value for a system variable such as "sql_mode" (nil if unset).
+func (s *Session) SessionVar(name string) interface{} {
+	return server.VerifSessionVariable(s.SE, name)
 }
